@@ -210,6 +210,10 @@ func ValidatePublicKeyStrength(pub interface{}) (bool, error) {
 		if k.Size() < 256 { //ksize is in bytes
 			return false, nil
 		}
+		// Size() rounds up to whole bytes: 2041..2047 bit moduli have 256
+		if k.N.BitLen() < 2048 {
+			return false, nil
+		}
 
 		if k.E < 65537 {
 			return false, nil
